@@ -12,19 +12,19 @@ open Pyunicorn.Recurrence (V ltV)
 def toSt (s : StructC08.LS) : St := ⟨s.k, s.mf, s.hist⟩
 
 /-- value of `line` computed at the top of the loop body -/
-def lineVal (R : Int → Int → Bool) (metric : Int → Int → V) (eps : V) (dimZero black : Bool)
-    (I j : Int) : Bool :=
-  if dimZero then R I j == black else ltV (metric I j) eps == black
+def lineVal {α : Type} (O : FOps α) (R : Int → Int → Bool) (metric : Int → Int → α) (eps : α)
+    (dimZero black : Bool) (I j : Int) : Bool :=
+  if dimZero then R I j == black else O.lt (metric I j) eps == black
 
-theorem innerBody_cell (R : Int → Int → Bool) (metric : Int → Int → V) (eps : V)
+theorem innerBody_cell {α : Type} (O : FOps α) (R : Int → Int → Bool) (metric : Int → Int → α) (eps : α)
     (dz black : Bool) (M : Int → Bool) (mv : Bool) (ij2I : Int → Int → Int → Int)
     (N i j : Int) (s : StructC08.LS) :
-    toSt (StructC08.innerBody R metric eps dz black M mv ij2I N i j s)
-      = cell mv (lineVal R metric eps dz black (ij2I i j N) j)
+    toSt (StructC08.innerBody O R metric eps dz black M mv ij2I N i j s)
+      = cell mv (lineVal O R metric eps dz black (ij2I i j N) j)
           (M (ij2I i j N) || M j) (toSt s) := by
   obtain ⟨k, mf, ln, hist⟩ := s
   cases dz <;> cases mv <;>
-    cases hl : (ltV (metric (ij2I i j N) j) eps == black) <;>
+    cases hl : (O.lt (metric (ij2I i j N) j) eps == black) <;>
     cases hr : (R (ij2I i j N) j == black) <;>
     cases hm : (M (ij2I i j N) || M j) <;> cases mf <;>
     by_cases hk : k = 0 <;>
@@ -43,15 +43,15 @@ theorem toSt_foldl {α : Type} (f : StructC08.LS → α → StructC08.LS) (g : S
   | cons a t ih => simp only [List.foldl_cons]; rw [ih, h]
 
 /-- the generated double loop is the fold of `subspace` over the visited cells -/
-theorem lineDist_eq (n_time : Int) (hist : List Nat) (R : Int → Int → Bool)
-    (metric : Int → Int → V) (eps : V) (dz black : Bool) (M : Int → Bool) (mv : Bool)
+theorem lineDist_eq {α : Type} (O : FOps α) (n_time : Int) (hist : List Nat) (R : Int → Int → Bool)
+    (metric : Int → Int → α) (eps : α) (dz black : Bool) (M : Int → Bool) (mv : Bool)
     (i2J : Int → Int → Int) (ij2I : Int → Int → Int → Int) (skip : Bool) :
-    StructC08.lineDist n_time hist R metric eps dz black M mv i2J ij2I skip
+    StructC08.lineDist O n_time hist R metric eps dz black M mv i2J ij2I skip
       = ((List.range (if skip then n_time - 1 else n_time).toNat).foldl
           (fun (s : St) (i : Nat) =>
             subspace mv ((List.range (i2J i (if skip then n_time - 1 else n_time)).toNat).map
               fun (j : Nat) =>
-                (lineVal R metric eps dz black
+                (lineVal O R metric eps dz black
                     (ij2I i j (if skip then n_time - 1 else n_time)) j,
                  M (ij2I i j (if skip then n_time - 1 else n_time)) || M j)) s)
           ⟨0, false, hist⟩).hist := by
@@ -61,23 +61,23 @@ theorem lineDist_eq (n_time : Int) (hist : List Nat) (R : Int → Int → Bool)
   have hh : ∀ s : StructC08.LS, s.hist = (toSt s).hist := fun s => rfl
   rw [hh, toSt_foldl (g := fun (s : St) (i : Nat) =>
       subspace mv ((List.range (i2J i N).toNat).map fun (j : Nat) =>
-        (lineVal R metric eps dz black (ij2I i j N) j, M (ij2I i j N) || M j)) s)]
+        (lineVal O R metric eps dz black (ij2I i j N) j, M (ij2I i j N) || M j)) s)]
   · rfl
   · intro s i
     rw [afterInner_endSub, toSt_foldl (g := fun (s : St) (j : Nat) =>
-        cell mv (lineVal R metric eps dz black (ij2I i j N) j) (M (ij2I i j N) || M j) s)]
+        cell mv (lineVal O R metric eps dz black (ij2I i j N) j) (M (ij2I i j N) || M j) s)]
     · simp only [subspace, List.foldl_map]
     · intro s j
-      exact innerBody_cell R metric eps dz black M mv ij2I N i j s
+      exact innerBody_cell O R metric eps dz black M mv ij2I N i j s
 
 /-- the same as a `kernel` over the list of sub-spaces -/
-theorem lineDist_kernel (n : Nat) (R : Int → Int → Bool)
-    (metric : Int → Int → V) (eps : V) (dz black : Bool) (M : Int → Bool) (mv : Bool)
+theorem lineDist_kernel {α : Type} (O : FOps α) (n : Nat) (R : Int → Int → Bool)
+    (metric : Int → Int → α) (eps : α) (dz black : Bool) (M : Int → Bool) (mv : Bool)
     (i2J : Int → Int → Int) (ij2I : Int → Int → Int → Int) (skip : Bool) :
-    StructC08.lineDist n (List.replicate n 0) R metric eps dz black M mv i2J ij2I skip
+    StructC08.lineDist O n (List.replicate n 0) R metric eps dz black M mv i2J ij2I skip
       = kernel mv ((List.range (if skip then (n : Int) - 1 else n).toNat).map fun (i : Nat) =>
           (List.range (i2J i (if skip then (n : Int) - 1 else n)).toNat).map fun (j : Nat) =>
-            (lineVal R metric eps dz black (ij2I i j (if skip then (n : Int) - 1 else n)) j,
+            (lineVal O R metric eps dz black (ij2I i j (if skip then (n : Int) - 1 else n)) j,
              M (ij2I i j (if skip then (n : Int) - 1 else n)) || M j)) n := by
   rw [lineDist_eq, kernel, List.foldl_map]
 
